@@ -591,3 +591,74 @@ Definition versions_intact (c : cfg) (vs0 : list fseg) (t t' : tree) : Prop :=
 Definition content_somewhere (c : cfg) (i : invr) (t t' : tree) : Prop :=
   forall d, In d (i_man (committed_inv c i)) ->
     lookup t' (c_so c ++ d) = lookup t (c_so c ++ d) \/ lookup t' (c_mo c ++ d) = lookup t (c_so c ++ d).
+
+(** the commit does not change the inventory type (it is not the tail of an upgrade) *)
+Definition same_type (c : cfg) (t : tree) (i : invr) : Prop :=
+  forall k vs sp man dups, read_file t (c_mo c ++ [c_inv c]) = Some (CInv k vs sp man dups) -> i_spec i = sp.
+
+(** the versions the staged inventory lists before its head *)
+Definition earlier_versions (i : invr) : list fseg := removelast (i_vs i).
+
+(** * the precondition as a boolean (evaluated on the abstracted pre-states of the real scenarios by the
+    correspondence check, and used for the non-vacuity examples); sound w.r.t. [commit_pre]:
+    Proofs/CommitPre.v *)
+Fixpoint prefixes_ne (acc : fpath) (p : fpath) : list fpath :=
+  match p with
+  | [] => []
+  | a :: p' => (acc ++ [a]) :: prefixes_ne (acc ++ [a]) p'
+  end.
+
+Definition none_under (t : tree) (r : fpath) : bool := forallb (fun e => negb (under r (fst e))) t.
+Definition seglist_eqb := content_eqb_seglist.
+
+Definition cfg_ok_b (c : cfg) : bool :=
+  negb (path_eqb (c_so c) []) && negb (path_eqb (c_mo c) [])
+  && negb (under (c_so c) (c_mo c)) && negb (under (c_mo c) (c_so c))
+  && negb (under (c_so c) (c_locks c)) && negb (under (c_mo c) (c_locks c))
+  && negb (under (lockp c) (c_so c)) && negb (under (lockp c) (c_mo c))
+  && negb (under (c_so c) (lockp c)) && negb (under (c_mo c) (lockp c))
+  && negb (seg_eqb (c_inv c) (c_side c)) && negb (seg_eqb (c_cdir c) (c_inv c)) && negb (seg_eqb (c_cdir c) (c_side c)).
+
+Definition is_blob (o : option node) : bool := match o with Some (File (CBlob _)) => true | _ => false end.
+
+Definition staged_ok_b (c : cfg) (t : tree) (i : invr) : bool :=
+  forallb (fun q => onode_eqb (lookup t q) (Some Dir)) (prefixes_ne [] (c_so c))
+  && match read_file t (c_so c ++ [c_inv c]) with Some x => content_eqb x (tok_of i) | None => false end
+  && negb (match i_vs i with [] => true | _ => false end)
+  && negb (seg_eqb (head_of i) (c_inv c)) && negb (seg_eqb (head_of i) (c_side c))
+  && forallb (fun d => match d with
+                       | hh :: cd :: _ :: _ => seg_eqb hh (head_of i) && seg_eqb cd (c_cdir c) && is_blob (lookup t (c_so c ++ d))
+                       | _ => false
+                       end) (i_man i)
+  && forallb (fun d => mem_path d (i_man i)) (i_dups i).
+
+Definition main_ok_b (c : cfg) (t : tree) (i : invr) : bool :=
+  match i_vs i with
+  | [_] => none_under t (c_mo c)
+  | _ =>
+    match read_file t (c_mo c ++ [c_inv c]) with
+    | Some (CInv k0 vs0 spec0 man0 dups0) =>
+        negb (match vs0 with [] => true | _ => false end)
+        && seglist_eqb (i_vs i) (vs0 ++ [head_of i])
+        && negb (existsb (seg_eqb (head_of i)) vs0)
+        && onode_eqb (lookup t (c_mo c)) (Some Dir)
+        && obj_validb c t (c_mo c)
+        && negb (N.eqb k0 (c_newk c))
+        && none_under t (c_mo c ++ [head_of i])
+        && (seg_eqb (i_spec i) spec0
+            || (onode_eqb (lookup t (c_mo c ++ [i_spec i])) None && negb (seg_eqb (i_spec i) (c_inv c))
+                && negb (seg_eqb (i_spec i) (c_side c)) && is_decl_name spec0 && is_decl_name (i_spec i)))
+    | _ => false
+    end
+  end.
+
+Definition commit_pre_b (c : cfg) (t : tree) (i : invr) : bool :=
+  cfg_ok_b c && is_dir t (c_locks c) && onode_eqb (lookup t (lockp c)) None
+  && staged_ok_b c t i && main_ok_b c t i.
+
+(** same_type, decided *)
+Definition same_type_b (c : cfg) (t : tree) (i : invr) : bool :=
+  match read_file t (c_mo c ++ [c_inv c]) with
+  | Some (CInv _ _ sp _ _) => seg_eqb (i_spec i) sp
+  | _ => true
+  end.
